@@ -36,3 +36,42 @@ pub fn web(arg: &str) -> (bool, String) {
         }
     }
 }
+
+/// C01 for Android-app origins, re-evaluated concretely.  arg = "<asset-link host>|<rp id or ->": the asset-link host plays
+/// the role of the origin host (no scheme requirement).
+pub fn android(arg: &str) -> (bool, String) {
+    use passkey_client::UnverifiedAssetLink;
+    let parts: Vec<&str> = arg.split('|').collect();
+    let host = parts[0];
+    let rp = if parts.get(1).copied().unwrap_or("-") == "-" { None } else { Some(parts[1]) };
+    let fp = "B3:5B:68:D5:CE:84:50:55:7C:6A:55:FD:64:B5:1F:EA:C1:10:CB:36:D6:A3:52:1C:59:48:DB:3A:38:0A:34:A9";
+    let url = Url::parse("https://example.com/.well-known/assetlinks.json").unwrap();
+    let Ok(link) = UnverifiedAssetLink::new("com.example.app", fp, host, url) else { return (false, "asset link refused".into()) };
+    let origin = Origin::Android(link);
+    let v = RpIdVerifier::new(DEFAULT_PROVIDER);
+    match v.assert_domain(&origin, rp) {
+        Err(e) => (false, format!("rejected: {e:?}")),
+        Ok(d) => {
+            if let Some(r) = rp {
+                if d != r { return (true, format!("accepted pair yields {d}, not the supplied RP ID {r}")); }
+            } else if d != host {
+                return (true, format!("accepted pair yields {d}, not the asset-link host {host}"));
+            }
+            let aligned = d == host || (host.len() > d.len() && host.ends_with(d) && host.as_bytes()[host.len() - d.len() - 1] == b'.');
+            if !aligned { return (true, format!("RP ID {d} accepted for host {host}: not equal and not a label-aligned suffix")); }
+            // a DNS host name: dot separated non-empty labels of letters, digits, '-', '_' (or non-ASCII: IDN), the last one not a number
+            let labels: Vec<&str> = host.strip_suffix('.').unwrap_or(host).split('.').collect();
+            let label_ok = |l: &&str| !l.is_empty() && l.chars().all(|c| c.is_ascii_alphanumeric() || c == '-' || c == '_' || !c.is_ascii());
+            let numeric_last = labels.last().map(|l| !l.is_empty() && l.chars().all(|c| c.is_ascii_digit())).unwrap_or(true);
+            if !labels.iter().all(label_ok) || numeric_last {
+                return (true, format!("asset-link host {host} is not a DNS host name but {d} was accepted"));
+            }
+            // registrable: DNS names are case-insensitive and the list is in canonical (lower-case, punycode) form
+            let ascii = match idna::domain_to_ascii(d) { Ok(a) => a, Err(_) => return (true, format!("RP ID {d} has no ASCII form but was accepted")) };
+            if DEFAULT_PROVIDER.effective_tld_plus_one(&ascii).is_err() {
+                return (true, format!("RP ID {d} (canonical form {ascii}) is not a registrable domain (public suffix) but was accepted"));
+            }
+            (false, format!("accepted {d}: all C01 conditions hold"))
+        }
+    }
+}
